@@ -194,20 +194,9 @@ def ragged(b):
 FINDING_REGIONS = {
   'bounds-three-list-as-pair': lambda k, n, b: quirk_long(n, b) and not any(is_seq(e) for e in b[:2]),
   'bounds-table-on-length-two': lambda k, n, b: quirk_long(n, b) and any(is_seq(e) for e in b[:2]),
-  # reported to the lead by this check (not yet in known_findings.json)
   'bounds-wrong-length-vectors-on-length-two': lambda k, n, b: quirk_two(n, b),
-  'generator-bounds-mixed-form-rejected': lambda k, n, b: k in ('CPV', 'CG') and ragged(b),
 }
-PENDING = [{'property': 'C11', 'id': 'bounds-wrong-length-vectors-on-length-two',
-            'what': 'on a length-2 device a 1-/2-sequence of vectors of one common length m != 2 passes validate_bounds as two rows: '
-                    'm >= 3 is accepted with an (2,m) table (d.validate_bounds([[0,1,2],[3,4,5]]); the constructor only rejects it because '
-                    'HyperCube complains), m <= 1 raises IndexError instead of ValueError',
-            'witness': {'n': 2, 'bounds': [[0, 1, 2], [3, 4, 5]]}},
-           {'property': 'C11', 'id': 'generator-bounds-mixed-form-rejected',
-            'what': 'PVDevice / GDevice reject the documented (low, high) bounds form whenever one item is a vector and the other a scalar: their bounds '
-                    'setter re-parses the raw argument with np.array(bounds), which raises ValueError on the inhomogeneous pair: '
-                    'PVDevice("pv", 3, ([-1,-2,-3], 0)) -> ValueError, Device accepts it',
-            'witness': {'class': 'PVDevice', 'n': 3, 'bounds': [[-1, -2, -3], 0]}}]
+PENDING = []     # findings reported by this check that are not yet in known_findings.json (none at the moment)
 
 
 _open_ids = None
